@@ -560,6 +560,8 @@ class Interp:
                 if ca is not None:
                     return self.eval_in_module(ca, self.front.classes[owner].module)
             key = f"{o.cls}.{attr}"
+            if key in self.reg.obj_props:
+                return self.reg.obj_props[key](self, o, n)
             if key in self.reg.handlers:
                 return Fn(self.reg.handlers[key], key, bound=o)
             for c in (self.front.mro(o.cls) if o.cls in self.front.classes else []):
